@@ -82,3 +82,12 @@ package method
 //@   loop 1 invariant methodDef.Context != nil && isFresh(methodDef.Context)
 //@   loop 1 invariant methodDef.TypeParams == (sig.TypeParams().Len() > 0)
 //@   loop 1 decreases sig.Params().Len() - i
+
+// ---- C09 ----
+//@ func Index.GetAll
+//@   props C09
+//@   maprange 1 unordered-result items
+
+//@ func AvailableContextDebug
+//@   props C09
+//@   maprange 1 unordered-result lines
